@@ -140,7 +140,7 @@ def main():
         ob('exactly one in-flight wrapper tracks the gauge', gauge_n == 1)
         # --- one status line per request (promhttp counts the code of the last WriteHeader, the client sees the first)
         stubs.HAVOC_BOUND['n'] = 1
-        res9, ex9 = driver.run_entry(run, prog, 'VerifHarness_C09_Handler', stubs.make_stubs(), loop_bound=16, max_paths=200000, trace_calls=(').ProveInsertion', ').ProveDeletion'))
+        res9, ex9 = driver.run_entry(run, prog, 'VerifHarness_C09_Handler', stubs.make_stubs(), loop_bound=16, max_paths=200000, trace_calls=(').ProveInsertion', ').ProveDeletion', 'Parameters).UnmarshalJSON'))
         bad9 = [r for r in res9 if r.status == 'assert' and 'status line' in r.info['msg']]
         if bad9:
             findings.append('the handler writes more than one status line on some path (counted code != sent code)')
